@@ -23,11 +23,11 @@ def model_cost(line):
     w = {'table_scan': 6, 'table_get': 4, 'table_iter': 3, 'table_entries': 2, 'table_build': 3}.get(c, 1)
     return w * len(line)
 
-def run(rep, tier, seed):
+def run(rep, tier, seed, proof_id='C16'):
     t_start = time.time()
     rng = vlib.Rng(seed)
     quick = tier == 'quick'
-    pr = vlib.coq_check('C16')
+    pr = vlib.coq_check(proof_id)
     rep.add_proof(pr)
     if not pr['ok']:
         rep.violation({'kind': 'proof-broken', 'theorems': pr['theorems'], 'log': pr['log'][-3000:],
